@@ -43,6 +43,11 @@ class RefServer:
                         plugresp=2)
         self.ids.update(cfg.get('login_ids', {}))
         cfg.setdefault('servers', []).append(self)
+        if cfg.get('early_disconnect') is not None:
+            # a server (proxy, ban list) that rejects the connection before reading anything: the login
+            # disconnect is already in the client's receive buffer when its first write fails
+            self.send_packet(self.ids['disconnect'], rc.string(cfg['early_disconnect']))
+            self.close()
 
     # ---------------------------------------------------------------- output
     def emit(self, data):
